@@ -8,6 +8,7 @@ package harness
 // the meaning of every generated text is decided by the reference model.
 
 import (
+	"encoding/json"
 	"strconv"
 	"strings"
 
@@ -305,7 +306,14 @@ func (g *exprGen) literal() string {
 	case 1, 2:
 		return ref.SpellLiteral(genScalar(g.t))
 	default:
-		return ref.SpellLiteral(genValue(g.t, 2, docOpts{maxDepth: 4, maxWidth: 3}))
+		v := genValue(g.t, 2, docOpts{maxDepth: 4, maxWidth: 3})
+		if g.n(4, "litIndent") == 0 {
+			// the same literal over several lines (JSON white space inside the backticks: tab, LF, CR, space)
+			if b, err := json.MarshalIndent(v, []string{"", " ", "\t"}[g.n(3, "litPrefix")], []string{"\t", "  ", " \r"}[g.n(3, "litInd")]); err == nil {
+				return "`" + strings.Replace(string(b), "`", "\\`", -1) + "`"
+			}
+		}
+		return ref.SpellLiteral(v)
 	}
 }
 
